@@ -654,6 +654,41 @@ impl System for Sys {
     }
 
     fn step(&mut self, a: &Act) -> Result<(), String> {
+        // a panic inside the subject (e.g. mplex's own debug_assert on the buffer bound) is a
+        // property violation with its own signature, never a machinery error
+        match mc::catch(|| self.step_inner(a)) {
+            Ok(r) => r,
+            Err(p) => Err(panic_violation(&p)),
+        }
+    }
+
+    fn canon(&self) -> Vec<u8> {
+        self.canon_inner()
+    }
+
+    fn invariant(&self) -> Result<(), String> {
+        match mc::catch(|| self.invariant_inner()) {
+            Ok(r) => r,
+            Err(p) => Err(panic_violation(&p)),
+        }
+    }
+
+    fn nontrivial(&self) -> bool {
+        self.limit_hit
+    }
+}
+
+fn panic_violation(p: &str) -> String {
+    let loc = mc::shim::last_panic_loc().unwrap_or_default();
+    if p.contains("max_buffer_len") {
+        format!("buffer-bound-assert-panic :: the muxer's own assertion on the per-substream buffer bound failed: {p} at {loc}")
+    } else {
+        format!("panic at {loc} :: {p}")
+    }
+}
+
+impl Sys {
+    fn step_inner(&mut self, a: &Act) -> Result<(), String> {
         self.hist.push(a.clone());
         match a {
             Act::ROpen => {
@@ -735,7 +770,7 @@ impl System for Sys {
         self.after_call()
     }
 
-    fn canon(&self) -> Vec<u8> {
+    fn canon_inner(&self) -> Vec<u8> {
         let w = self.wire.lock().unwrap();
         let mut s = String::new();
         use std::fmt::Write;
@@ -765,7 +800,7 @@ impl System for Sys {
         s.into_bytes()
     }
 
-    fn invariant(&self) -> Result<(), String> {
+    fn invariant_inner(&self) -> Result<(), String> {
         if self.is_drain_copy {
             return Ok(());
         }
@@ -773,16 +808,12 @@ impl System for Sys {
         let mut c = Sys::new(self.cfg);
         c.is_drain_copy = true;
         for a in &self.hist {
-            c.step(a).map_err(|e| format!("NONDETERMINISM replay for drain diverged :: {e}"))?;
+            c.step_inner(a).map_err(|e| format!("NONDETERMINISM replay for drain diverged :: {e}"))?;
         }
         if c.canon() != self.canon() {
             return Err("NONDETERMINISM drain copy differs from original :: canon mismatch".into());
         }
         c.drain_and_judge()
-    }
-
-    fn nontrivial(&self) -> bool {
-        self.limit_hit
     }
 }
 
